@@ -1,3 +1,76 @@
 package main
 
-func (e *Env) raceMode(seed uint64, n int) int { return 0 }
+// race mode: one DataSource (one compiled plan), many concurrent Loads of an operation over an
+// abstract type whose concrete type varies per call (the mock's randomPet).  Every answer must be
+// internally consistent: a Cat carries meowVolume and no barkVolume, a Dog the converse.
+// marshalResponseJSON builds validFields by append(message.Fields, ...); message.Fields is created
+// with spare capacity by the plan visitor, so concurrent Loads write fragment fields into one shared
+// backing array.
+
+import (
+	"context"
+	"fmt"
+	"os"
+	"strings"
+	"sync"
+
+	"github.com/tidwall/gjson"
+
+	"github.com/wundergraph/graphql-go-tools/v2/pkg/astparser"
+	grpcds "github.com/wundergraph/graphql-go-tools/v2/pkg/engine/datasource/grpc_datasource"
+)
+
+func (e *Env) raceMode(seed uint64, n int) int {
+	q := `query Q {randomPet {id ... on Cat {meowVolume} ... on Dog {barkVolume}}}`
+	doc, rep := astparser.ParseGraphqlDocumentString(q)
+	if rep.HasErrors() {
+		panic(rep.Error())
+	}
+	ds, err := grpcds.NewDataSource(grpcds.NewGRPCTransport(e.conn), grpcds.DataSourceConfig{Operation: &doc, Definition: &e.schemaDoc,
+		SubgraphName: "Products", Compiler: e.compiler, Mapping: e.mapping})
+	if err != nil {
+		panic(err)
+	}
+	input := []byte(`{"query":"` + q + `","body":{"variables":{}}}`)
+	check := func(out []byte) string {
+		pet := gjson.GetBytes(out, "data.randomPet")
+		id := pet.Get("id").String()
+		hasM, hasB := pet.Get("meowVolume").Exists(), pet.Get("barkVolume").Exists()
+		switch {
+		case strings.HasPrefix(id, "cat") && hasM && !hasB, strings.HasPrefix(id, "dog") && hasB && !hasM:
+			return ""
+		}
+		return string(out)
+	}
+	run := func(workers int) (bad int, example string) {
+		var mu sync.Mutex
+		var wg sync.WaitGroup
+		for w := 0; w < workers; w++ {
+			wg.Add(1)
+			go func() {
+				defer wg.Done()
+				for i := 0; i < n; i++ {
+					out, err := ds.Load(context.Background(), nil, input)
+					if err != nil {
+						out = []byte("error: " + err.Error())
+					}
+					if x := check(out); x != "" {
+						mu.Lock()
+						bad++
+						example = x
+						mu.Unlock()
+					}
+				}
+			}()
+		}
+		wg.Wait()
+		return
+	}
+	b1, ex1 := run(1)
+	b8, ex8 := run(8)
+	fmt.Fprintf(os.Stdout, "sequential: %d inconsistent of %d %s\nconcurrent(8): %d inconsistent of %d %s\n", b1, n, ex1, b8, 8*n, ex8)
+	if b1 != 0 || b8 != 0 {
+		return 3
+	}
+	return 0
+}
